@@ -100,6 +100,40 @@ CHECKS['C05'] = dict(
          "arithmetic without a read is reported as ARITH notes only.",
     design_ref='5/C05')
 
+E3TB = 'the E2/E3 interpreter (lin.py, loops.py, interp.py, models.py, e3.py, specs.py); the VECTOR AXIOMS: lane-wise meaning of the Vector/MoveMask trait methods (cmpeq, or, and, movemask, has_non_zero, first/last_offset, count_ones) and of has_zero_byte are assumed -- the bit-level impls in vector.rs are not decided'
+E3TECH = 'abstract interpretation of monomorphic MIR with ghost scan-coverage state (E2+E3): symbolic haystack and needles, exact linear-integer store, Houdini loop invariants; post-conditions are entailment obligations at every return; 2 (quick) / 10 (thorough) target configurations, release semantics'
+CHECKS['C01'] = dict(
+    category='proof', technique=E3TECH,
+    text="Decides the property relative to the vector axioms: for memchr/memchr2/memchr3 and find/find_raw of every "
+         "One/Two/Three of every backend (SWAR, SSE2, AVX2, NEON, simd128; through every member of the ifunc sets) the "
+         "interpreter proves at every return: None => every byte of [start,end) was examined for every needle "
+         "(ghost prefix hi[n] >= end), Some(p) => start <= p < end, p is a set lane of a non-zero equality mask over one "
+         "chunk (or an assumed byte equality), every byte before the chunk was examined and the mask covers every "
+         "needle with first_offset. Haystack address, length, contents and the needles are symbols, so all lengths, "
+         "alignments and match positions are covered at once, including backends the host tests never compile.",
+    note=TB + E3TB, design_ref='5/C01')
+CHECKS['C02'] = dict(
+    category='proof', technique=E3TECH,
+    text="Mirror image of C01 for memrchr/memrchr2/memrchr3 and rfind/rfind_raw of every backend: ghost suffix lo[n], "
+         "last_offset, POST-LAST (no needle after the returned position), POST-NONE (lo[n] <= start).",
+    note=TB + E3TB, design_ref='5/C02')
+CHECKS['C06'] = dict(
+    category='proof', technique=E3TECH + '; plus a documented pen-and-paper induction over call histories',
+    text="Decides the per-call hypotheses of the iterator induction for Memchr/Memchr2/Memchr3 and every "
+         "One/Two/ThreeIter of every backend: next() returns the first match of the CURRENT window and next_back() the "
+         "last (E3), Some(i) moves only start to found+1 (resp. only end to found), None leaves the window unchanged, "
+         "the window invariant original_start <= start <= end holds at construction and at every exit, size_hint is "
+         "(0, >= end-start). The step from these per-call facts to 'any interleaving yields every match exactly once' "
+         "is the short induction written in DESIGN 5/C06.",
+    note=TB + E3TB + '; the induction over histories is by hand', design_ref='5/C06')
+CHECKS['C07'] = dict(
+    category='proof', technique=E3TECH + '; counting measure F with CountOf([a,b)) = F(b)-F(a)',
+    text="Decides, relative to the axioms (popcount of a lane mask = number of equal lanes), that every count/count_raw "
+         "and every iterator count() returns exactly the number of needle bytes in the CURRENT window "
+         "[self.start, self.end): scalar head, 4x unrolled popcounts, vector loop and scalar tail tile the window "
+         "without gap or overlap (adjacent pieces telescope in the linear store), for all lengths/alignments/densities.",
+    note=TB + E3TB, design_ref='5/C07')
+
 NOT_YET = "check not built yet (build in progress, see DESIGN.md section 8 build order)"
 NA = {}
 
